@@ -36,7 +36,9 @@ def run_scenario(root, nenf, actions, seed):
     before = snapshot(shared)
     enfs = []
     share = nenf >= 2 and seed % 3 == 0
-    for i in range(nenf):
+    # a lone enforcer is, in a quarter of the scenarios, the merging one (configured like the third enforcer)
+    lone_merging = nenf == 1 and seed % 4 == 3
+    for i in ([2] if lone_merging else range(nenf)):
         if share and i == 1:
             # two enforcers on the SAME files (same paths), differing only in an option
             r, fs = os.path.join(root, 'e0'), enfs[0]['fs']
